@@ -249,6 +249,34 @@ Theorem C19_restart_ops_read_all :
   forall ks n, (n < eff_reads false (restart_ops ks n))%nat.
 Proof. exact eff_reads_restart. Qed.
 
+(** Two writer threads on one monitor, EVERY schedule at lock granularity (the clock is read
+    while the writer lock is held): the file holds the packets in the order the lock was
+    taken, the record times are the clock readings in that order, so they never decrease,
+    and the replay delivers every packet with non-decreasing relative timestamps. *)
+Theorem C19_concurrent_writers :
+  forall rnd hub d start sched readings (l1 l2 : list pin),
+    monotone rnd ->
+    Forall (fun p => frame_ok d (i_frame p) = true) l1 ->
+    Forall (fun p => frame_ok d (i_frame p) = true) l2 ->
+    length readings = (length l1 + length l2)%nat ->
+    sortedb readings = true ->
+    let l := stamped readings (merge sched l1 l2) in
+    sortedb (ts_list (clocks_of l)) = true ->
+    (all_some (clocks_of l) \/ exists D, offset_consistent D (clocks_of l)) ->
+    let out := concurrent_capture rnd hub d start sched readings l1 l2 in
+    map o_frame out = merge sched (map i_frame l1) (map i_frame l2)
+    /\ sortedb (map o_time out) = true
+    /\ sortedb (map o_rel out) = true
+    /\ Forall (fun r => 0 <= r) (map o_rel out)
+    /\ length out = (length l1 + length l2)%nat.
+Proof. exact concurrent_writers. Qed.
+
+(** why the clock must be read inside the critical section: a packet stamped before another
+    one but written after it makes the record times decrease *)
+Theorem C19_stamping_outside_the_lock_refuted :
+  exists c1 c2, c1 <= c2 /\ sortedb (written_times (fun z => z) None [(c2, None); (c1, None)]) = false.
+Proof. exact stamping_outside_the_lock_refuted. Qed.
+
 (** the clock hypothesis cannot be dropped: packets with and without device timestamp
     whose two clocks are unrelated have no common capture time *)
 Theorem C19_clock_hypothesis_needed :
